@@ -30,13 +30,18 @@ def pct(b):
     return ''.join(chr(c) if c in _ATTR else '%%%02X' % c for c in b)
 
 
+def _qs(v):
+    """quoted-string content: backslash-escape the quote and the backslash (RFC 9110 5.6.4)"""
+    return v.replace('\\', '\\\\').replace('"', '\\"')
+
+
 def part_headers(p, style=0):
     """style 0: Content-Disposition, then Content-Type;
     style 1: Content-Type first; style 2: lower-case header names."""
     name, filename, fstar, ctype, _ = p
-    cd = 'form-data; name="%s"' % name
+    cd = 'form-data; name="%s"' % _qs(name)
     if filename is not None:
-        cd += '; filename="%s"' % filename
+        cd += '; filename="%s"' % _qs(filename)
     if fstar is not None:
         cd += "; filename*=%s''%s" % (fstar[0], pct(fstar[1].encode(_CHARSETS[fstar[0].lower()])))
     n_cd, n_ct = ('content-disposition', 'content-type') if style == 2 else ('Content-Disposition', 'Content-Type')
@@ -190,12 +195,26 @@ def _disposition(v):
         key = key.lower()
         i = j + 1
         if v[i:i + 1] == '"':
-            j = v.find('"', i + 1)
-            if j < 0:
-                raise Reject('unterminated quoted string')
-            val = v[i + 1:j]
-            if '\\' in val:
-                raise Reject('escapes are outside the strict subset')
+            # quoted-string with quoted-pairs (RFC 9110 5.6.4)
+            j = i + 1
+            buf = []
+            while True:
+                if j >= n:
+                    raise Reject('unterminated quoted string')
+                c = v[j]
+                if c == '\\':
+                    if j + 1 >= n:
+                        raise Reject('dangling backslash')
+                    if v[j + 1] not in '"\\':
+                        raise Reject('only the quote and the backslash are escaped in the strict subset')
+                    buf.append(v[j + 1])
+                    j += 2
+                    continue
+                if c == '"':
+                    break
+                buf.append(c)
+                j += 1
+            val = ''.join(buf)
             i = j + 1
         else:
             j = i
